@@ -139,3 +139,16 @@ def draw_payload(rng):
     if r < 0.95:
         return rng.randbytes(rng.randint(0, 80)), {"k": "junk"}
     return bytes(rng.choice(b"0123456789().*:-kWh\r\n ") for _ in range(rng.randint(1, 60))), {"k": "ascii_junk"}
+
+
+def weird_ident(rng) -> bytes:
+    """Identification lines (without line end) from well-formed to damaged: long ids, control
+    characters that str.strip() keeps or removes, escapes, lower-case flag ids."""
+    base = rng.choice([b"/ABC5", b"/KMP5 ", b"/LGF5E360", b"/ELL5\\253833635_A", b"/XMX5LGBBFFB231314239", b"/Abc9"])
+    n = rng.choice([0, 3, 16, 17, 24, 30, 40, 64])
+    body = bytes(rng.choice(b"ABCDEFGHIJKLMNOPQRSTUVWXYZ0123456789 _-.") for _ in range(n))
+    out = bytearray(base + body)
+    for _ in range(rng.choice([0, 0, 1, 1, 2])):
+        pos = rng.randrange(1, len(out) + 1)
+        out.insert(pos, rng.choice([0x01, 0x07, 0x1B, 0x7F, 0x1C, 0x1F, 0x09, 0x0B, 0x00, 0x5C, 0x80, 0xFF]))
+    return bytes(out).replace(b"!", b"_").replace(b"\n", b"_")
